@@ -57,6 +57,8 @@ def run(ctx):
     real = pools.sample_runs(rng, nreal, must=must[: (2 if ctx.quick else 3)], countries=["USA", "ARG", "BRA", "IND", "CHN", "FRA"] if ctx.quick else None, horizons=(120,) if ctx.quick else (48, 72, 120))
     # a surplus country with both industrial foods and a continued shut-off: every per-source feed / biofuel series is non-zero
     real.append({"iso3": "ARG", "option": pools.option(scenario="industrial_foods", shutoff="continued")})
+    # baseline climate, continued shut-off, baseline breeding: months without harvest while stored crops go to feed (fix b2b514c)
+    real.append({"iso3": "ARG", "option": pools.option(grasses="baseline", crop_disruption="zero", fish="baseline", nutrition="baseline", ratio_stocks_untouched="baseline", shutoff="continued", meat_strategy="baseline_breeding")})
     res = ctx.run_impl("lp_impl", {"synthetic": specs, "real": real, "rows_for_real": True, "procs": 14})
     dist = {"synthetic_built": 0, "synthetic_solved": 0, "synthetic_infeasible": 0, "assert_rejected": 0,
             "real_runs": 0, "real_solves": 0, "to_humans": 0, "to_animals": 0, "flags": {}, "N": {}}
